@@ -1,6 +1,6 @@
 (* C02 — catalog creation stores every input record exactly once, unchanged.
    Statements only; proofs are in Proofs/ChunksP.v and Proofs/WriterP.v. *)
-From Verif Require Import Prelude Chunks ChunksP Writer WriterP PatchPath PatchPathP.
+From Verif Require Import Prelude Chunks ChunksP Writer WriterP PatchPath PatchPathP Relocate RelocateP.
 From Coq Require Import Permutation.
 Open Scope nat_scope.
 
@@ -146,6 +146,21 @@ Print Assumptions C02_reload_keys.
 Theorem C02_patch_id_by_search_refuted : exists (dir : String.string) (n : nat), id_of_path_search (patch_path dir n) <> Some n.
 Proof. exact id_search_refuted. Qed.
 Print Assumptions C02_patch_id_by_search_refuted.
+(* ---------------- reopened from the directory it is in NOW ---------------- *)
+(* a cache that was moved (renamed, copied) and whose old place was taken by another catalog still holds what it was created from *)
+Theorem C02_reopen_after_move : forall (R : Type) (f : @fs R) (p q : nat) (r r' : R),
+  p <> q -> reopen (create (move (create f p r) p q) p r') q = Some r.
+Proof. exact @reopen_after_move. Qed.
+Print Assumptions C02_reopen_after_move.
+Theorem C02_reopen_after_copy : forall (R : Type) (f : @fs R) (p q : nat) (r r' : R),
+  p <> q -> reopen (create (copy (create f p r) p q) p r') q = Some r.
+Proof. exact @reopen_after_copy. Qed.
+Print Assumptions C02_reopen_after_copy.
+(* a reader that follows paths stored inside the cache hands out the records of whatever lives at the old place *)
+Theorem C02_reopen_by_stored_paths_refuted :
+  exists (f : @fs nat) p q r r', p <> q /\ reopen_stored (create (move (create f p r) p q) p r') q = Some r' /\ r <> r'.
+Proof. exact reopen_stored_after_move_refuted. Qed.
+Print Assumptions C02_reopen_by_stored_paths_refuted.
 Module C02_paths_example.
 Import Coq.Strings.String.
 Example C02_concrete_paths :
